@@ -80,8 +80,7 @@ def _send_sites(ctx):
     return out
 
 
-def rule_r2(ctx):
-    rid = "C19.R2"
+def rule_r2(ctx, rid="C19.R2"):
     ctx.r.rule(rid, "both senders of the interim response are inside the requests lock and guarded by: expecting, head finished, not yet sent, and no other request owning the connection")
     p = ctx.p
     lk = get_locks(p)
@@ -114,6 +113,19 @@ def rule_r2(ctx):
                 ctx.r.ok(rid, "%s-side sender guarded by: %s" % (f.name, k), f.loc(n.ast))
             else:
                 ctx.r.violation(rid, key_of(f, None, "continue-guard-missing::" + k.split(" (")[0]), "send_continue() in %s is not guarded by '%s'" % (f.qual, k), f.loc(n.ast))
+        # ... and by nothing else: the two senders split the cases on "is another request queued" only.  A further
+        # condition on either side leaves an expecting client with no sender (nothing re-evaluates the test: the client
+        # sends no more bytes until it got the interim response).  Conditions on the liveness of the connection and on
+        # the bytes just read are the exception - they hold whenever an interim response is still of any use.
+        own = {"expect_continue", "headers_finished", "sent_continue", "requests", "request", "connected", "will_close", "close_when_flushed", "close_on_finish"}
+        for (t, pol) in gs:
+            attrs = {x.attr for x in ast.walk(t) if isinstance(x, ast.Attribute)}
+            names = {x.id for x in ast.walk(t) if isinstance(x, ast.Name)} - {"self", "len"}
+            if attrs <= own:
+                continue
+            ctx.r.violation(rid, key_of(f, None, "continue-guard-extra::" + norm(t)[:50]),
+                            "send_continue() in %s is additionally guarded by `%s` (%s): when that fails for an expecting request the other sender's condition does not take over, the client never gets its interim response and waits for ever"
+                            % (f.qual, norm(t)[:80], "must hold" if pol else "must not hold"), f.loc(n.ast))
 
 
 def rule_r3(ctx, rid="C19.R3"):
